@@ -5,7 +5,7 @@ use triomphe::OffsetArc;
 
 fn main() {
     let mut t = Tally::new();
-    for r in 0..rounds(1) {
+    for r in 0..rounds(2) {
         let b = 50 + 10 * r as u64;
         clone_read_drop::<Thin>(&mut t, 2, b);
         clone_read_drop::<OffsetArc<Payload>>(&mut t, 2, b + 1);
